@@ -11,7 +11,9 @@ TraceLog == ndJsonDeserialize(TraceFile)
 VARIABLES l, cnt
 vars == <<l, cnt>>
 
-ToSt(p, c) == [rec |-> [k \in CertKeys |-> p.rec[k]], cert |-> [k \in CertKeys |-> p.cert[k]], cfg |-> [nidl |-> c.nidl, base |-> c.base]]
+ToSt(p, c) == [rec |-> [k \in CertKeys |-> p.rec[k]], cert |-> [k \in CertKeys |-> p.cert[k]],
+               prevrec |-> [k \in CertKeys |-> p.prevrec[k]], hasprev |-> [k \in CertKeys |-> p.hasprev[k]],
+               prevfresh |-> [k \in CertKeys |-> p.prevfresh[k]], cfg |-> [nidl |-> c.nidl, base |-> c.base]]
 SeqToSet(s) == {s[i] : i \in 1..Len(s)}
 
 \* expected metadata: the offered list minus the certificate-preference entries, in order
@@ -26,8 +28,14 @@ Viols(e, pre) ==
      (IF e.op.kind = "mixedFA" /\ e.res = "auth" THEN {<<"C02", "fetch-handshake-yielded-connection">>} ELSE {}) \cup
      (IF e.op.kind \in {"auth", "mixedAF", "mixedFA"} /\ e.res \in {"base", "fetchconn", "othertype"} THEN {<<"C02", "library-client-returned-as-other-connection">>} ELSE {})
    ELSE {}) \cup
-  (IF "C02" \in Props /\ e.op.op = "Dial" /\ e.res = "auth" /\ ~(pre.rec[e.op.k] /\ pre.cert[e.op.k] = "fresh")
+  (IF "C02" \in Props /\ e.op.op = "Dial" /\ e.res = "auth" /\ ~(pre.rec[e.op.k] /\ pre.cert[e.op.k] \in {"fresh", "pending"})
      THEN {<<"C02", "unregistered-or-stale-node-authenticated">>} ELSE {}) \cup
+  (IF "C02" \in Props /\ e.op.op = "DialPrev" /\ e.res = "auth" /\ ~(pre.prevrec[e.op.k] /\ pre.prevfresh[e.op.k])
+     THEN {<<"C02", "previous-credentials-authenticated-without-stored-record">>} ELSE {}) \cup
+  (IF "C07" \in Props /\ e.op.op = "DialPrev" /\ pre.prevrec[e.op.k] /\ pre.prevfresh[e.op.k] /\ e.res # "auth"
+     THEN {<<"C07", "registered-node-cannot-connect-to-its-own-server">>} ELSE {}) \cup
+  (IF "C07" \in Props /\ e.op.op = "RotateNode" /\ pre.rec[e.op.k] /\ e.res # "ok"
+     THEN {<<"C07", "credential-rotation-of-registered-node-fails">>} ELSE {}) \cup
   (IF "C07" \in Props /\ e.op.op \in {"Rogue", "Dial"} THEN
      (IF e.op.op = "Rogue" /\ e.res = "conn" THEN {<<"C07", "connected-to-a-peer-without-trusted-chain-or-fresh-nonce">>} ELSE {}) \cup
      (IF e.op.op = "Dial" /\ pre.cert[e.op.k] = "pending" /\ ~pre.rec[e.op.k] /\ ~(e.res = "notauth" /\ e.obs.notAuthorizedErr)
@@ -56,7 +64,7 @@ Viols(e, pre) ==
      (IF e.op.op = "Connect" /\ (e.obs.statePresent # (e.op.stt = "ok")) THEN {<<"C16", "client-state-exposed-without-verified-signature">>} ELSE {})
    ELSE {})
 
-NonTrivial(e) == e.op.op \in {"Connect", "Dial", "Malformed", "Rogue"}
+NonTrivial(e) == e.op.op \in {"Connect", "Dial", "Malformed", "Rogue", "DialPrev", "RotateNode"}
 
 Init == l = 1 /\ cnt = [lines |-> 0, nontrivial |-> 0, drift |-> 0, viol |-> 0, unc |-> 0]
 
